@@ -122,9 +122,11 @@ impl<'n> TryFromNode<'n> for Field {
             let module = namespace.as_ref().map(|n| n.rust_mod_name.clone());
 
             let xml_name = ref_node.xml_name().ok_or(WriterError::InvalidReference)?;
-            let rust_type = RustFieldType::Other(OtherRustType {
-                name: xml_name_to_rust_name(xml_name),
-                module,
+            let rust_type = ref_node.rust_type.as_builtin_alias().cloned().unwrap_or_else(|| {
+                RustFieldType::Other(OtherRustType {
+                    name: xml_name_to_rust_name(xml_name),
+                    module,
+                })
             });
 
             return Ok(Field {
